@@ -1027,7 +1027,12 @@ def _rechunk_to_merge_in_boundary_chunks(
     rechunked_padded_args = []
     for padded_arg, original_arg in zip(padded_args, original_args):
         original_arg = _maybe_unpack_vector_component(original_arg)
-        original_arg_chunks = original_arg.variable.chunksizes
+        # (a component held in memory has no chunks of its own, yet its padded version is lazy as soon as the
+        # halo comes from a lazy partner component: it then counts as one chunk per dimension)
+        original_arg_chunks = {
+            dim: original_arg.variable.chunksizes.get(dim, (original_arg.sizes[dim],))
+            for dim in original_arg.dims
+        }
         merged_boundary_chunks = _get_chunk_pattern_for_merging_boundary(
             grid,
             padded_arg,
